@@ -8,6 +8,7 @@ from ..core.analysis import Analysis
 from ..core.forms import (Poly, Rat, U, UnitError, canon, srcinfo, to_rat, unit_of,
                           ustr)
 from ..core.pyrepo import Repo, calls_in, dotted, norm_stmt
+from ..core.cfg import handler_names
 from ..core.report import AnalysisError
 from ..oracles import linux as O
 
@@ -252,33 +253,17 @@ def run(ctx):
              "exceeds the 15 bytes comm can hold", floor=5)
     nre = 0
     for fi in repo.all_funcs(pm):
-        if fi.cls != "Process":
-            continue
-        pats = {}
-        a = fi.node.args
-        for p, d in zip(a.args[len(a.args) - len(a.defaults):], a.defaults):
-            if isinstance(d, ast.Call) and dotted(d.func) == "re.compile" and d.args \
-                    and isinstance(d.args[0], ast.Constant):
-                pats[p.arg] = (d.args[0].value, d)
-        if not pats:
-            continue
-        # which pattern is applied to the status file?
-        t = evaluate(I, fi)
-        for fa in sorted(set(collect(t, lambda x: x and x[0] == "findall")), key=repr):
-            src = pretty(fa[2])
-            if "/status" not in src:
-                continue
-            pat = fa[1][1] if fa[1][0] == "const" else None
-            if pat is None:
-                continue
+        for pat, flags, meth, call in _status_regex_uses(fi):
             nre += 1
             key = f"{fi.qual}:{pat.decode() if isinstance(pat, bytes) else pat}"
-            anchored, width = _regex_facts(pat, fa[3] if len(fa) > 3 else None)
+            anchored, width = _regex_facts(pat, flags)
+            if meth in ("match", "fullmatch"):
+                anchored = True       # offset 0 is the start of the first line
             if anchored or width > O.TASK_COMM_LEN - 1:
                 ctx.ok("C06.R5", key, sample={"pattern": repr(pat), "anchored": anchored,
-                                              "min_width": width})
+                                              "min_width": width, "method": meth})
             else:
-                ctx.fail("C06.R5", key, fi.file, fi.node.lineno, fi.qual,
+                ctx.fail("C06.R5", key, fi.file, call.lineno, fi.qual,
                          f"regex {pat!r} (min width {width}, not line-anchored) can match "
                          f"inside the `Name:` line of <pid>/status: a process whose name "
                          f"is e.g. {_spoof(pat)!r} makes {fi.name}() report the values "
@@ -299,6 +284,14 @@ def run(ctx):
     else:
         ctx.fail("C06.R6", "terminal", "psutil/_pslinux.py", 0, "Process.terminal",
                  f"terminal() = `{pretty(tt)[:140]}`")
+    # ------------------------------------------------------------------- R8
+    ctx.rule("C06.R8", "old-kernel records: a read of a stat column that old kernels "
+             "do not print (index >= %d after comm) tolerates its absence - it sits in a "
+             "try body whose handler catches IndexError, or under a length guard that "
+             "is false for every record too short to hold it" % O.STAT_OPTIONAL_FROM,
+             floor=1)
+    _r8(ctx, repo, A, pm)
+
     ctx.stat("functions_interpreted", sorted(set(I.trace_calls))[:40])
     ctx.stat("unsupported_constructs", I.unsupported[:10])
     ctx.assume("byte-level decoding of non-UTF-8 names is value-level and not decided")
@@ -311,6 +304,80 @@ def run(ctx):
             "state letters.",
             "abstract interpretation (provenance + units), regex static analysis, "
             "table agreement")
+
+
+class _LenSubst(ast.NodeTransformer):
+    def __init__(self, name):
+        self.name = name
+
+    def visit_Call(self, n):
+        if isinstance(n.func, ast.Name) and n.func.id == "len" and len(n.args) == 1 \
+                and isinstance(n.args[0], ast.Name) and n.args[0].id == self.name:
+            return ast.copy_location(ast.Name("__len__", ast.Load()), n)
+        return self.generic_visit(n)
+
+
+def _r8(ctx, repo, A, pm):
+    import copy
+    from .c15 import eval_pred
+    fi = repo.func(pm, "Process._parse_stat_file")
+    cfg = A.cfg(fi)
+    parents = {}
+    for n in ast.walk(fi.node):
+        for c in ast.iter_child_nodes(n):
+            parents[id(c)] = n
+    found = 0
+    for sub in ast.walk(fi.node):
+        if not (isinstance(sub, ast.Subscript) and isinstance(sub.ctx, ast.Load)
+                and isinstance(sub.value, ast.Name) and isinstance(sub.slice, ast.Constant)
+                and isinstance(sub.slice.value, int)
+                and sub.slice.value >= O.STAT_OPTIONAL_FROM):
+            continue
+        k, lst = sub.slice.value, sub.value.id
+        found += 1
+        key = f"{fi.qual}:{lst}[{k}]"
+        # (a) try body with an IndexError-compatible handler
+        tolerant = None
+        cur, child = parents.get(id(sub)), sub
+        while cur is not None and cur is not fi.node:
+            if isinstance(cur, ast.Try) and any(child is b or any(child is x for x in ast.walk(b))
+                                                for b in cur.body):
+                for h in cur.handlers:
+                    names = handler_names(h)
+                    if names is None or names & {"IndexError", "LookupError", "Exception",
+                                                 "BaseException"}:
+                        tolerant = f"try/except {sorted(names) if names else 'bare'}"
+            child, cur = cur, parents.get(id(cur))
+        # (b) dominating length guards, evaluated on every too-short length
+        if tolerant is None:
+            owners = cfg.owners(sub)
+            gs = [g for o in owners for g in cfg.guards(o)]
+            bad = None
+            for L in range(0, k + 1):
+                sat = True
+                for test, pol, _ in gs:
+                    t2 = _LenSubst(lst).visit(copy.deepcopy(test))
+                    v = eval_pred(t2, {"__len__": L})
+                    if v is (not pol) and v in (True, False):
+                        sat = False
+                        break
+                if sat:
+                    bad = L
+                    break
+            if bad is None and gs:
+                tolerant = "length guard excludes every len <= %d" % k
+            else:
+                ctx.fail("C06.R8", key, fi.file, sub.lineno, fi.qual,
+                         f"`{lst}[{k}]` is read although a stat record with only "
+                         f"{bad if bad is not None else k} fields after comm reaches it "
+                         f"(no IndexError handler, and the guards "
+                         f"{[norm_stmt(g[0]) for g in gs]} admit that length): "
+                         f"old-kernel records lacking the trailing fields raise "
+                         f"IndexError instead of reporting the field as 0")
+                continue
+        ctx.ok("C06.R8", key, sample=tolerant)
+    ctx.require(found >= 1, "no optional stat column is read any more "
+                            "(delayacct_blkio_ticks vanished)")
 
 
 def _check_ticks(ctx, fi, key, vt):
@@ -398,6 +465,90 @@ def _check_create_time(ctx, fi, t, I, repo):
     else:
         ctx.fail("C06.R3", "boot_time", bt.file, bt.node.lineno, bt.qual,
                  f"boot_time() = `{pretty(tt)[:120]}`: not column 1 of the btime line")
+
+
+RE_METHODS = ("search", "findall", "finditer", "match", "fullmatch", "split", "sub", "subn")
+
+
+def _status_regex_uses(fi):
+    """(pattern literal, flags, method, call node) for every regex applied, in
+    this function, to the content of <pid>/status - whatever re method is used.
+    The subject is status content if it is (a name assigned from) a call of
+    _read_status_file()."""
+    fn = fi.node
+    pats = {}
+
+    def compiled(d):
+        if isinstance(d, ast.Call) and dotted(d.func) == "re.compile" and d.args \
+                and isinstance(d.args[0], ast.Constant):
+            fl = d.args[1] if len(d.args) > 1 else next(
+                (k.value for k in d.keywords if k.arg == "flags"), None)
+            return d.args[0].value, fl
+        return None
+
+    a = fn.args
+    pos = a.posonlyargs + a.args
+    for p_, d in list(zip(pos[len(pos) - len(a.defaults):], a.defaults)) + \
+            [(p_, d) for p_, d in zip(a.kwonlyargs, a.kw_defaults) if d is not None]:
+        c = compiled(d)
+        if c:
+            pats[p_.arg] = c
+    status_names = set()
+    for n in ast.walk(fn):
+        if isinstance(n, ast.Assign) and compiled(n.value):
+            for t in n.targets:
+                if isinstance(t, ast.Name):
+                    pats[t.id] = compiled(n.value)
+        if isinstance(n, (ast.Assign, ast.AnnAssign, ast.NamedExpr)) and n.value is not None \
+                and _is_status_read(n.value):
+            tg = n.targets if isinstance(n, ast.Assign) else [n.target]
+            for t in tg:
+                if isinstance(t, ast.Name):
+                    status_names.add(t.id)
+
+    def is_status(e):
+        return _is_status_read(e) or any(isinstance(x, ast.Name) and x.id in status_names
+                                         for x in ast.walk(e))
+
+    out = []
+    for n in ast.walk(fn):
+        if not isinstance(n, ast.Call) or not isinstance(n.func, ast.Attribute) \
+                or n.func.attr not in RE_METHODS:
+            continue
+        recv = n.func.value
+        if isinstance(recv, ast.Name) and recv.id in pats and n.args:
+            subj = n.args[1] if n.func.attr in ("sub", "subn") and len(n.args) > 1 else n.args[0]
+            if is_status(subj):
+                pat, fl = pats[recv.id]
+                out.append((pat, _flag_ast(fl), n.func.attr, n))
+        elif dotted(recv) == "re" and len(n.args) >= 2 and isinstance(n.args[0], ast.Constant):
+            subj = n.args[2] if n.func.attr in ("sub", "subn") and len(n.args) > 2 else n.args[1]
+            if is_status(subj):
+                fl = next((k.value for k in n.keywords if k.arg == "flags"), None)
+                if fl is None and n.func.attr not in ("sub", "subn", "split") and len(n.args) > 2:
+                    fl = n.args[2]
+                out.append((n.args[0].value, _flag_ast(fl), n.func.attr, n))
+        elif compiled(recv) and n.args and is_status(n.args[0]):
+            pat, fl = compiled(recv)
+            out.append((pat, _flag_ast(fl), n.func.attr, n))
+    return out
+
+
+def _is_status_read(e):
+    return any(isinstance(x, ast.Call) and (dotted(x.func) or "").endswith("_read_status_file")
+               for x in ast.walk(e))
+
+
+def _flag_ast(e):
+    """re flag expression (ast) -> the term form _flag_value understands."""
+    if e is None:
+        return None
+    if isinstance(e, ast.Constant) and isinstance(e.value, int):
+        return ("const", e.value)
+    if isinstance(e, ast.BinOp) and isinstance(e.op, ast.BitOr):
+        return ("bin", "|", _flag_ast(e.left), _flag_ast(e.right))
+    d = dotted(e)
+    return ("ext", d) if d else None
 
 
 def _flag_value(t):
